@@ -13,14 +13,22 @@ EXTENDS Paging, TLC, Json
 
 CONSTANTS AllVariants,   \* TRUE: every single-iteration scenario x every variant; FALSE: one variant each, rotating
           MultiEvery,    \* one scenario in MultiEvery is also run with re-execution plans ...
-          MultiPlans     \* ... this many of them (rotating through PlanSeq)
+          MultiPlans,    \* ... this many of them (rotating through PlanSeq)
+          OptEvery       \* one single-iteration scenario in OptEvery is also run with an execution option set
 
 VARIABLE variant
 
 Preps == <<"query", "exec0", "exec2">>
 \* rebind: the caller calls q.Bind(values...) (and PageState(s) again in manual mode) before executions 2, 3
-Variants == {[prep |-> Preps[i], skip |-> k, rebind |-> 0] : i \in 1 .. 3, k \in {0, 1}}
-VariantNo(i) == [prep |-> Preps[(i % 3) + 1], skip |-> (i \div 3) % 2, rebind |-> 0]
+Variants == {[prep |-> Preps[i], skip |-> k, rebind |-> 0, opt |-> "none"] : i \in 1 .. 3, k \in {0, 1}}
+VariantNo(i) == [prep |-> Preps[(i % 3) + 1], skip |-> (i \div 3) % 2, rebind |-> 0, opt |-> "none"]
+
+\* Execution options of the Query. None of them changes what the property demands of the iteration:
+\* a serial consistency, speculative execution armed (idempotent query), a retry policy, WithContext (cancelled
+\* / timing out long after the end), an observer, tracing, a caller-chosen timestamp, a custom payload, and
+\* "release": q.Release() as soon as Iter() has returned, other queries then built from the pool.
+Opts == <<"serial", "spec", "release", "retry", "ctx", "trace", "ts", "ctxto", "observer", "payload">>
+OptsReexec == <<"none", "serial", "spec", "none", "retry", "ctx", "trace", "none", "ts", "payload">>   \* (a released Query is not executed again)
 
 \* the same Query value executed two or three times: after a complete iteration, after stopping early
 PlanSeq == << <<-1, -1>>, <<0, -1>>, <<1, -1>>, <<2, -1, -1>>, <<-1, 1, -1>>, <<-1, -1, -1>> >>
@@ -33,15 +41,21 @@ MaxOfSeq(sq) == IF sq = <<>> THEN 0 ELSE Max2(Head(sq), MaxOfSeq(Tail(sq)))
 KindNo(k) == CASE k = "Scan" -> 0 [] k = "Scanner" -> 1 [] k = "MapScan" -> 2 [] OTHER -> 3
 Rot(sc) == (SumOf(sc.pages) * 5 + Len(sc.pages) + sc.q + KindNo(sc.kind) * 2 + sc.fail * 3 + sc.start) % 6
 Rot2(sc) == SumOf(sc.pages) * 7 + Len(sc.pages) * 3 + sc.q + KindNo(sc.kind) * 5 + sc.fail * 2 + sc.start
+Rot3(sc) == SumOf(sc.pages) * 3 + Len(sc.pages) * 11 + sc.q * 5 + KindNo(sc.kind) * 7 + sc.fail + sc.start * 13
 
 \* any page size at least as large as the largest page (the scripted node never sends more)
 SizeOf(sc) == Max2(1, MaxOfSeq(sc.pages)) + (Len(sc.pages) % 2) * 100
 
 VariantsFor(sc) ==
-  IF Len(sc.plan) = 1 THEN (IF AllVariants THEN Variants ELSE {VariantNo(Rot(sc))})
+  IF Len(sc.plan) = 1
+  THEN (IF AllVariants THEN Variants ELSE {VariantNo(Rot(sc))}) \cup
+       (IF Rot3(sc) % OptEvery = 0
+        THEN {[VariantNo(Rot2(sc) \div 2) EXCEPT !.opt = Opts[((Rot3(sc) \div OptEvery) % Len(Opts)) + 1]]}
+        ELSE {})
   ELSE IF Rot2(sc) % MultiEvery = 0
             /\ \E j \in 0 .. MultiPlans - 1 : sc.plan = PlanSeq[((Rot2(sc) \div MultiEvery + j * 3) % Len(PlanSeq)) + 1]
-       THEN {[VariantNo(Rot2(sc) \div 2) EXCEPT !.rebind = (Rot2(sc) \div 3) % 2]}
+       THEN {[VariantNo(Rot2(sc) \div 2) EXCEPT !.rebind = (Rot2(sc) \div 3) % 2,
+                                                !.opt = OptsReexec[(Rot3(sc) % Len(OptsReexec)) + 1]]}
        ELSE {}
 
 GenInit == /\ PickScenario
@@ -54,7 +68,7 @@ Emit ==
   PrintT(<<"CASE", ToJson(
     [pages |-> scen.pages, q |-> scen.q, kind |-> scen.kind, fail |-> scen.fail, mode |-> scen.mode,
      start |-> scen.start, plan |-> scen.plan, prep |-> variant.prep, skip |-> variant.skip,
-     rebind |-> variant.rebind, size |-> SizeOf(scen),
+     rebind |-> variant.rebind, opt |-> variant.opt, size |-> SizeOf(scen),
      exp |-> [reqs |-> ExpReqs(scen), rows |-> ExpRows(scen), delivered |-> ExpDelivered(scen),
               ended |-> ExpEnd(scen), err |-> ExpErr(scen), exposed |-> ExpExposed(scen),
               execs |-> [e \in 1 .. Len(scen.plan) |->
